@@ -226,9 +226,10 @@ struct default_color_converter_impl<rgb_t, ycbcr_709__t>
 		double cb = 128.0 - 0.168736 * red  - 0.331264 * green +      0.5 * blue;
 		double cr = 128.0 +      0.5 * red  - 0.418688 * green - 0.081312 * blue;
 
-		get_color( dst,  y_t() ) = (dst_channel_t)  y;
-		get_color( dst, cb_t() ) = (dst_channel_t) cb;
-		get_color( dst, cr_t() ) = (dst_channel_t) cr;
+		// round to nearest (Cb and Cr reach 255.5 for pure blue and red)
+		get_color( dst,  y_t() ) = (dst_channel_t) detail::clamp( y + 0.5, 0.0, 255.0);
+		get_color( dst, cb_t() ) = (dst_channel_t) detail::clamp(cb + 0.5, 0.0, 255.0);
+		get_color( dst, cr_t() ) = (dst_channel_t) detail::clamp(cr + 0.5, 0.0, 255.0);
 	}
 };
 
@@ -246,17 +247,20 @@ struct default_color_converter_impl<ycbcr_709__t, rgb_t>
         using src_channel_t = typename channel_type<SRCP>::type;
         using dst_channel_t = typename channel_type<DSTP>::type;
 
-		src_channel_t y           = channel_convert<src_channel_t>( get_color(src,  y_t())       );
-		src_channel_t cb_clipped  = channel_convert<src_channel_t>( get_color(src, cb_t()) - 128 );
-		src_channel_t cr_clipped  = channel_convert<src_channel_t>( get_color(src, cr_t()) - 128 );
+		// Cb and Cr are offset by 128: the differences are signed and must not be
+		// narrowed back to the (unsigned) source channel type.
+		double  y = get_color(src,  y_t());
+		double cb = get_color(src, cb_t()) - 128.0;
+		double cr = get_color(src, cr_t()) - 128.0;
 
-		double   red =   y                        +   1.042 * cr_clipped;
-		double green =   y - 0.34414 * cb_clipped - 0.71414 * cr_clipped;
-		double  blue =   y +   1.772 * cb_clipped;
+		double   red =   y                +   1.402 * cr;
+		double green =   y - 0.34414 * cb - 0.71414 * cr;
+		double  blue =   y +   1.772 * cb;
 
-		get_color( dst,   red_t() ) = (dst_channel_t)   red;
-		get_color( dst, green_t() ) = (dst_channel_t) green;
-		get_color( dst,  blue_t() ) = (dst_channel_t)  blue;
+		// round to nearest and keep inside [0, 255] before narrowing
+		get_color( dst,   red_t() ) = (dst_channel_t) detail::clamp(  red + 0.5, 0.0, 255.0);
+		get_color( dst, green_t() ) = (dst_channel_t) detail::clamp(green + 0.5, 0.0, 255.0);
+		get_color( dst,  blue_t() ) = (dst_channel_t) detail::clamp( blue + 0.5, 0.0, 255.0);
 	}
 };
 
